@@ -29,7 +29,7 @@ var subst = map[string][2]string{
 }
 
 // sync selectors the vector-clock model covers; anything else from sync disables I2.
-var modelled = map[string]bool{"Mutex": true, "RWMutex": true, "Once": true, "WaitGroup": true, "Cond": true, "NewCond": true, "Locker": true, "OnceFunc": true}
+var modelled = map[string]bool{"Mutex": true, "RWMutex": true, "Once": true, "WaitGroup": true, "Cond": true, "NewCond": true, "Locker": true, "OnceFunc": true, "Pool": true, "Map": true}
 
 func main() {
 	if len(os.Args) < 4 {
@@ -40,6 +40,9 @@ func main() {
 	var unsupported, i2off, notes []string
 	files := 0
 	usesSync := false
+	resetFuncs := map[string][]string{}
+	resetBodies := map[string]string{}
+	pkgNames := map[string]string{}
 	for _, dir := range os.Args[3:] {
 		ents, err := os.ReadDir(filepath.Join(root, dir))
 		if err != nil {
@@ -116,6 +119,53 @@ func main() {
 				}
 				return true
 			})
+			// package-level state must not leak from one simulated run into the next: every
+			// file gets a function that re-executes its package-level var initialisers
+			var resets []string
+			for _, d := range f.Decls {
+				gd, ok := d.(*ast.GenDecl)
+				if !ok || gd.Tok != token.VAR {
+					continue
+				}
+				for _, sp := range gd.Specs {
+					vs := sp.(*ast.ValueSpec)
+					var names []string
+					allBlank := true
+					for _, n := range vs.Names {
+						names = append(names, n.Name)
+						if n.Name != "_" {
+							allBlank = false
+						}
+					}
+					if allBlank {
+						continue
+					}
+					if len(vs.Values) > 0 {
+						var vals []string
+						for _, v := range vs.Values {
+							var sb strings.Builder
+							printer.Fprint(&sb, fset, v)
+							vals = append(vals, sb.String())
+						}
+						resets = append(resets, strings.Join(names, ", ")+" = "+strings.Join(vals, ", "))
+					} else if vs.Type != nil {
+						var sb strings.Builder
+						printer.Fprint(&sb, fset, vs.Type)
+						for _, n := range names {
+							if n != "_" {
+								resets = append(resets, fmt.Sprintf("{ var z %s; %s = z }", sb.String(), n))
+							}
+						}
+					}
+				}
+			}
+			if len(resets) > 0 {
+				fn := fmt.Sprintf("vsimReset%d", len(resetFuncs[dir]))
+				resetFuncs[dir] = append(resetFuncs[dir], fn)
+				resetBodies[path] = "\n// " + fn + " re-executes the package-level var initialisers of this file (generated by vsim rewrite).\nfunc " + fn + "() {\n\t" + strings.Join(resets, "\n\t") + "\n}\n"
+				pkgNames[dir] = f.Name.Name
+				changed = true
+			}
 			if changed {
 				w, err := os.Create(path)
 				if err != nil {
@@ -125,6 +175,9 @@ func main() {
 				if err := printer.Fprint(w, fset, f); err != nil {
 					fmt.Fprintf(os.Stderr, "rewrite: %v\n", err)
 					os.Exit(2)
+				}
+				if body, ok := resetBodies[path]; ok {
+					fmt.Fprint(w, body)
 				}
 				w.Close()
 				files++
@@ -137,8 +190,27 @@ func main() {
 	if len(notes) > 0 {
 		note += "; " + strings.Join(notes, "; ")
 	}
-	src := fmt.Sprintf("// Code generated by vsim rewrite. DO NOT EDIT.\n\npackage c19\n\n// Verdict of the static scan of the import-substituted packages.\nvar (\n\tScanI2          = %v\n\tScanUsesSync    = %v\n\tScanUnsupported = %q\n\tScanNote        = %q\n)\n",
-		len(i2off) == 0, usesSync, strings.Join(unsupported, "; "), note)
+	var dirs []string
+	for d := range resetFuncs {
+		dirs = append(dirs, d)
+	}
+	sort.Strings(dirs)
+	imports, calls := "", ""
+	for i, d := range dirs {
+		body := "// Code generated by vsim rewrite. DO NOT EDIT.\n\npackage " + pkgNames[d] + "\n\n// VsimReset puts the package-level state back to its initial value (three passes cover\n// initialisers that depend on each other).\nfunc VsimReset() {\n\tfor pass := 0; pass < 3; pass++ {\n"
+		for _, fn := range resetFuncs[d] {
+			body += "\t\t" + fn + "()\n"
+		}
+		body += "\t}\n}\n"
+		if err := os.WriteFile(filepath.Join(root, d, "vsim_reset_gen.go"), []byte(body), 0o644); err != nil {
+			fmt.Fprintf(os.Stderr, "rewrite: %v\n", err)
+			os.Exit(2)
+		}
+		imports += fmt.Sprintf("\tpkg%d %q\n", i, "go.lstv.dev/util/"+filepath.ToSlash(d))
+		calls += fmt.Sprintf("\tpkg%d.VsimReset()\n", i)
+	}
+	src := fmt.Sprintf("// Code generated by vsim rewrite. DO NOT EDIT.\n\npackage c19\n\nimport (\n%s)\n\n// resetPackages re-initialises the package-level state of the substituted packages.\nfunc resetPackages() {\n%s}\n\n// Verdict of the static scan of the import-substituted packages.\nvar (\n\tScanI2          = %v\n\tScanUsesSync    = %v\n\tScanUnsupported = %q\n\tScanNote        = %q\n)\n",
+		imports, calls, len(i2off) == 0, usesSync, strings.Join(unsupported, "; "), note)
 	if err := os.WriteFile(out, []byte(src), 0o644); err != nil {
 		fmt.Fprintf(os.Stderr, "rewrite: %v\n", err)
 		os.Exit(2)
